@@ -1,7 +1,7 @@
 (* C12 — the iHam orthoXML export describes the same HOG. *)
 From Coq Require Import List Arith Bool String Permutation.
 From PyHam Require Import Tax Ortho Loader Mapper Preds Nav Export Filter Hist Spell.
-From PyHam.proofs Require Import ExplicitFacts ExportFacts SpellFacts RoundTripFacts.
+From PyHam.proofs Require Import ExplicitFacts ExportFacts LoftFacts SpellFacts RoundTripFacts.
 Import ListNotations.
 
 (* Proved for every loaded HOG (any shape, no alignment hypothesis): the exported groups reference exactly
@@ -11,7 +11,8 @@ Import ListNotations.
    different: the groups the exporter writes (elision rules of findings F5/F11 included) are a permitted
    spelling (Spell.v) of the history read off the HOG (c12_export_is_a_spelling), that history is well formed
    and is matched by the HOG itself; hence (C03) evaluating the exported group again - in any loader state,
-   with any gene table that places the member genes at their species - yields a HOG that matches the same
+   with any gene table that places the member genes at their species, the member genes being pairwise different
+   and not yet carrying a LOFT id in that state - yields a HOG that matches the same
    history: same members, same taxon for every sub-HOG, same duplication grouping (c12_roundtrip).
    Not proved: the species section of the exported document is only shown to declare the right genes, the
    whole-document re-load (species blocks resolved by name) and the iHam page assembly are checked on the
@@ -40,6 +41,7 @@ Print Assumptions c12_history_well_formed.
 Theorem c12_roundtrip : forall t genes o p m ks s,
   names_inj t -> wf_node t (HHog o p m ks) = true ->
   (forall g q, In (HGene g q) (all_of (HHog o p m ks)) -> find_gene g genes = Some q) -> dups_dom s ->
+  NoDup (genes_of (HHog o p m ks)) -> lfresh s (genes_of (HHog o p m ks)) ->
   let x := HHog o p m ks in
   exists it i x' s', export_groups t x = [it] /\ eval_top t genes it s = Ok ((i, x'), s') /\
     matches (hist_of x) x /\ matches (hist_of x) x' /\ htax x' = htax x /\ wf_node t x' = true.
